@@ -57,6 +57,12 @@ def render_toml(cfg):
         out.append(f'default_domain = "{cfg["default_domain"]}"')
     if cfg.get("toc_landing_pages"):
         out.append("toc_landing_pages = [" + ", ".join(f'"{x}"' for x in cfg["toc_landing_pages"]) + "]")
+    if cfg.get("eol"):
+        out.append("eol = true")
+    if cfg.get("canonical"):
+        out.append(f'canonical = "{cfg["canonical"]}"')
+    for prod in cfg.get("associated_products", []):
+        out += ["", "[[associated_products]]", f'name = "{prod}"', 'versions = ["v1.0", "v1.1"]']
     out.append("")
     out.append("[constants]")
     for k, v in cfg.get("constants", {}).items():
@@ -285,6 +291,40 @@ def audit_project(root):
     return out, nparses
 
 
+def config_reads_at_parse_time():
+    """names of the ProjectConfig dataclass fields read during parse_rst + Page.finish over a grammar-generated corpus
+    (every directive / role of rstspec.toml, toctrees with associated-product entries, constants, default domains)"""
+    import dataclasses
+    import random as _random
+    from impl import c01gen, rst
+    names = {f.name for f in dataclasses.fields(ProjectConfig)}
+    reads = set()
+
+    def spy(self, name):
+        if name in names:
+            reads.add(name)
+        return object.__getattribute__(self, name)
+    r = _random.Random(11)
+    g_docs = []
+    for i in range(250):
+        g_docs.append(c01gen.Gen(r).doc())
+    g_docs.append("T\n=\n\n.. toctree::\n\n   /a\n   Atlas CLI <|atlas-cli|>\n   Other <|nope|>\n\n{+ver+} |prod|\n\n.. default-domain:: mongodb\n\n:doc:`/a`\n")
+    cfg = ProjectConfig(rst.ROOT, "verif", constants={"ver": "1"}, substitutions={"prod": "P"})
+    n = 0
+    ProjectConfig.__getattribute__ = spy
+    try:
+        for text in g_docs:
+            try:
+                page, diags = rst.parse(text, cfg=cfg)
+                page.finish(list(diags))
+                n += 1
+            except Exception:
+                continue
+    finally:
+        del ProjectConfig.__getattribute__
+    return reads, n
+
+
 def flip_content(rel):
     if rel.endswith(".png"):
         return {"hex": PNGS[1].hex()}
@@ -500,6 +540,18 @@ class C11(core.PropertyCheck):
                         want <= seen, f"missing from audit: {sorted(want - seen)}"))
         finally:
             w.close()
+        # configuration footprint: every ProjectConfig field a parse reads is part of the cache specifier (not `nohash`),
+        # except the project location (files reached through it are recorded dependency by dependency)
+        try:
+            reads, nparsed = config_reads_at_parse_time()
+            import dataclasses as _dc
+            unhashed = {f.name for f in _dc.fields(ProjectConfig) if f.metadata.get("nohash")}
+            bad = sorted((reads & unhashed) - {"root"})
+            out.append((f"every ProjectConfig field read while parsing ({nparsed} documents; fields read: {sorted(reads)}) is hashed into the cache specifier",
+                        not bad and "associated_products" in reads and "default_domain" in reads,
+                        f"read at parse time but excluded from the specifier: {bad}" if bad else f"audit is blind: {sorted(reads)}"))
+        except Exception as e:
+            out.append(("configuration-read audit ran", False, f"{type(e).__name__}: {e}"))
         # clean builds are deterministic (otherwise the differential would raise false alarms)
         w = Workdir(case)
         try:
@@ -575,6 +627,12 @@ class C11(core.PropertyCheck):
             text = self.gen_page(rng, p)
             if p == "index.txt":
                 text += "\n.. toctree::\n\n" + "".join(f"   /{q.rsplit('.', 1)[0]}\n" for q in pages[1:])
+                if rng.random() < 0.35:
+                    # an entry of another (associated) project: kept or dropped + reported AT PARSE TIME depending on snooty.toml
+                    text += "   Atlas CLI <|atlas-cli|>\n"
+                    if rng.random() < 0.5:
+                        cfg["associated_products"] = ["atlas-cli"]
+                        files["snooty.toml"] = {"text": render_toml(cfg)}
             files["source/" + p] = {"text": text}
         files["source/includes/fact.rst"] = {"text": self.gen_block(rng, "includes/fact.rst", embedded=True) + "\n"}
         if rng.random() < 0.8:
@@ -601,7 +659,7 @@ class C11(core.PropertyCheck):
         r = rng.random()
         if r < 0.10:
             c = copy.deepcopy(cfg)
-            what = rng.choice(["const", "subst", "domain", "title", "landing"])
+            what = rng.choice(["const", "subst", "domain", "title", "landing", "assoc", "assoc", "eol", "canonical"])
             if what == "const":
                 c["constants"]["ver"] = rng.choice(["1.0", "2.1", "3.0-rc"])
             elif what == "subst":
@@ -610,6 +668,12 @@ class C11(core.PropertyCheck):
                 c["default_domain"] = None if c.get("default_domain") else rng.choice(["py", "py", "mongodb"])
             elif what == "title":
                 c["title"] = rng.choice(["Title", "Other title"])
+            elif what == "assoc":
+                c["associated_products"] = [] if c.get("associated_products") else [rng.choice(["atlas-cli", "atlas-cli", "other-product"])]
+            elif what == "eol":
+                c["eol"] = not c.get("eol")
+            elif what == "canonical":
+                c["canonical"] = None if c.get("canonical") else "https://example.com/docs"
             else:
                 c["toc_landing_pages"] = [] if c.get("toc_landing_pages") else ["/a"]
             cfg.clear(), cfg.update(c)
